@@ -257,8 +257,21 @@ class PassFormula:
                     rejecting.append(f_and(r, h_here))
                 if n.kind == 'return' and n.ast is not None and n.ast.value is not None:
                     v = n.ast.value
+                    rd_ = cfg.reaching()
+                    multi = rd_.at(n, v.id) if isinstance(v, ast.Name) and rd_.is_local(v.id) else []
                     if self._is_error_ctor(v, func):
                         rejecting.append(r)
+                    elif len(multi) > 1 and all(d.kind in ('assign', 'walrus') and d.value is not None and not d.path for d in multi):
+                        # `node = None ... node = WrongTypeError(...) ... return node`: each definition that reaches the return
+                        # contributes under the condition of its own statement
+                        for d in multi:
+                            rdn = reach.get(d.node.id, FALSE)
+                            if self._is_error_ctor(d.value, func):
+                                rejecting.append(f_and(r, rdn))
+                            else:
+                                sf = self._sub_result_fail(d.value, d.node, nz, func)
+                                if sf is not None:
+                                    rejecting.append(f_and(r, rdn, sf))
                     else:
                         sf = self._sub_result_fail(v, n, nz, func)
                         if sf is not None:
